@@ -3,13 +3,17 @@
 
   Crash clause (process death): `commit_atomic_crash_proc` — at every kill point the recovered log contains all entries of
   each committed transaction or none (they share one sequence number and `recover_prefix_proc` recovers a sequence-number
-  prefix). Buffer semantics: `last_op_wins`. Failed/rolled-back transactions leave no trace in the MODEL trivially (they
-  never reach the log); on the implementation this and "keys/values captured at call time" are checked by the `engine`
-  and `crash` components (the harness overwrites its buffers after every tx.Put). Torn writes inside a batch (power loss
+  prefix). Buffer semantics: `last_op_wins`. Rolled-back transactions never reach the log; a commit the log
+  REJECTS (an entry beyond one log record) leaves the log exactly as it was: `rejected_commit_no_trace` (this was false of
+  the code before the D17a repair — the records ahead of the oversized one stayed in the buffer and came back at the next
+  restart; found by the `txvis` component's failcommit scenario, which replays it on the implementation). "Keys/values
+  captured at call time" is checked by the `engine` and `crash` components (the harness overwrites its buffers after
+  every tx.Put). Torn writes inside a batch (power loss
   cutting a batch's records) are NOT excluded by the format — no commit marker: open statement + witness below.
   Visibility to concurrent readers: C04/C06.
 -/
 import Kevo.Proofs.Crash
+import Kevo.Proofs.Wal
 import Kevo.Gen.Consts
 namespace Kevo.Props.C03
 open Kevo Kevo.Wal Kevo.Crash Kevo.Proofs.Crash
@@ -29,19 +33,36 @@ theorem last_op_wins (ops : List (Bool × Bytes × Bytes)) (k : Bytes) :
     (bufferOps ops).find? (fun t => t.2.1 == k) = ops.reverse.find? (fun t => t.2.1 == k) :=
   Kevo.Proofs.Crash.last_op_wins ops k
 
+/-- a commit that the log rejects leaves no trace: the log (every file, the counter) is what it was, so every later
+    replay is what it would have been without the transaction. -/
+theorem rejected_commit_no_trace (p : WalParams) (crc : Bytes → Nat) (l : Wal.Log) (es : List (Nat × Bytes × Bytes))
+    (hne : es ≠ []) (hseq : l.next < p.maxSeq)
+    (h : ∃ t ∈ es, payloadSize p { op := t.1, seq := 0, key := t.2.1, val := t.2.2 } > p.maxRecord) :
+    (l.batch p crc es).1 = .error .tooLarge ∧ (l.batch p crc es).2 = l ∧
+    ((l.batch p crc es).2.replay p crc) = l.replay p crc := by
+  have := Kevo.Proofs.Wal.batch_too_large p crc l es hne hseq h
+  exact ⟨this.1, this.2, by rw [this.2]⟩
+
+/-- the hypotheses are satisfiable: a two-entry batch whose second entry (40000 value bytes) exceeds the record limit. -/
+example (v : Bytes) (hv : v.length = 40000) :
+    (({} : Wal.Log).batch Kevo.Gen.walParams (fun _ => 0) [(1, [1], [2]), (1, [3], v)]).2 = {} := by
+  have := rejected_commit_no_trace Kevo.Gen.walParams (fun _ => 0) {} [(1, [1], [2]), (1, [3], v)]
+    (by simp) (by decide) ⟨(1, [3], v), by simp, by simp [payloadSize, Kevo.Gen.walParams, hv]⟩
+  exact this.2.1
+
 /-- full statement for torn writes (a crash may keep ANY byte prefix of the unsynced part of the log): false for this
     log format, which has no batch frame / commit marker. -/
 def commit_atomic_torn_statement : Prop :=
   ∀ (p : WalParams) (crc : Bytes → Nat) (seq : Nat) (es : List (Nat × Bytes × Bytes)) (n : Nat),
     p.WF → (∀ bs, crc bs < 2 ^ 32) →
-    let bytes := (batchBytes p crc seq es).1
+    let bytes := batchBytes p crc seq es
     let got := (replayFile p crc (bytes.take n)).entries
     got = [] ∨ got.length = es.length
 
 /-- witness: a two-entry batch cut after its first record replays exactly one of its two entries. -/
 theorem commit_atomic_torn_witness :
     ∃ (n : Nat), (replayFile Kevo.Gen.walParams (fun _ => 0)
-      (((batchBytes Kevo.Gen.walParams (fun _ => 0) 5 [(1, [1], [2]), (1, [3], [4])]).1).take n)).entries.length = 1 :=
+      ((batchBytes Kevo.Gen.walParams (fun _ => 0) 5 [(1, [1], [2]), (1, [3], [4])]).take n)).entries.length = 1 :=
   ⟨30, by decide⟩
 
 end Kevo.Props.C03
